@@ -64,6 +64,10 @@ fn structured(other_keys: &[Vec<u8>]) -> Vec<FinalReply> {
         FinalReply::Extend(2),
         FinalReply::Extend(1500),
         FinalReply::BerLong,
+        FinalReply::BerForm(0),
+        FinalReply::BerForm(1),
+        FinalReply::BerForm(2),
+        FinalReply::BerForm(3),
         FinalReply::ExtraTrailingField,
         FinalReply::MissingPubKeyAuth,
         FinalReply::EmptyPubKeyAuth,
@@ -107,7 +111,7 @@ fn structured(other_keys: &[Vec<u8>]) -> Vec<FinalReply> {
 fn class_of(r: &FinalReply, version_byte_bits: Option<(usize, usize)>) -> u8 {
     match r {
         FinalReply::Honest => 0,
-        FinalReply::BerLong | FinalReply::ExtraTrailingField | FinalReply::Version(_) | FinalReply::ZeroExtended(_) | FinalReply::SealedWithSeq(_) => 2,
+        FinalReply::ExtraTrailingField | FinalReply::Version(_) | FinalReply::ZeroExtended(_) | FinalReply::SealedWithSeq(_) => 2,
         FinalReply::FlipBit(n) => {
             if let Some((lo, hi)) = version_byte_bits {
                 if *n >= lo && *n < hi {
@@ -313,11 +317,11 @@ impl Prop for C01 {
         json!({"idx": idx, "config": configs()[c.cfg_id], "certificate": c.cert, "final_round_reply": c.reply, "challenge_flags_left_out": format!("{:#x}", c.challenge_without)})
     }
     fn rule(&self) -> String {
-        "cases = (connector configuration, server certificate, reply of the server in the final CredSSP round). Configurations: 3 credential sets x password|hash x {plain, restricted admin, blank credentials}; certificates RSA-2048, EC P-256 (+ an untrusted RSA key for the relay case). Replies: honest; every single-bit flip of the honest TSRequest; key+d for every d in [-256,256] except 1 and key +- 2^j for every j up to 248, correctly sealed; sealed with client-to-server keys / another session key / wrong signing key / wrong sealing key / advanced cipher stream; honest reply for another certificate's key (relay); reflection of the client's token; every truncation; extensions; BER long lengths, extra field, missing/empty pubKeyAuth, wrong context tag, versions 0/3/6; EOF. Full alphabet for two configurations in quick (every 13th bit / 7th truncation elsewhere), for all in thorough. Also: an Ed25519 certificate whose raw key starts with 0xFF (carry of key+1) with every offset -300..300 and +-2^j; the CHALLENGE of the earlier round leaving out SIGN / ALWAYS_SIGN / SEAL / 56 / TARGET_TYPE flags x structured replies x bit flips. Also: one authentication object (Ntlm) used for two sessions through x224::Client::connect, the second server replaying the first server's final reply (4 configurations x 2 certificates). Oracle: honest => credentials released and well formed; must-reject => connect returns Err, the server's TLS endpoint receives zero application bytes after its reply, and the client does not ask the (still open) transport for more bytes after the reply was delivered; don't-care (same integer, other spelling) => if accepted the value was right. Non-trivial: every reply but the honest one.".into()
+        "cases = (connector configuration, server certificate, reply of the server in the final CredSSP round). Configurations: 3 credential sets x password|hash x {plain, restricted admin, blank credentials}; certificates RSA-2048, EC P-256 (+ an untrusted RSA key for the relay case). Replies: honest; every single-bit flip of the honest TSRequest; key+d for every d in [-256,256] except 1 and key +- 2^j for every j up to 248, correctly sealed; sealed with client-to-server keys / another session key / wrong signing key / wrong sealing key / advanced cipher stream; honest reply for another certificate's key (relay); reflection of the client's token; every truncation; extensions; the honest value re-encoded as BER-but-not-DER (long-form lengths everywhere / only on the version field, indefinite-length outer SEQUENCE / [3] wrapper, constructed OCTET STRING) which CredSSP's DER rules make a malformed encoding and which must be refused; extra field, missing/empty pubKeyAuth, wrong context tag, versions 0/3/6; EOF. Full alphabet for two configurations in quick (every 13th bit / 7th truncation elsewhere), for all in thorough. Also: an Ed25519 certificate whose raw key starts with 0xFF (carry of key+1) with every offset -300..300 and +-2^j; the CHALLENGE of the earlier round leaving out SIGN / ALWAYS_SIGN / SEAL / 56 / TARGET_TYPE flags x structured replies x bit flips. Also: one authentication object (Ntlm) used for two sessions through x224::Client::connect, the second server replaying the first server's final reply (4 configurations x 2 certificates). Oracle: honest => credentials released and well formed; must-reject => connect returns Err, the server's TLS endpoint receives zero application bytes after its reply, and the client does not ask the (still open) transport for more bytes after the reply was delivered; don't-care (same integer, other spelling) => if accepted the value was right. Non-trivial: every reply but the honest one.".into()
     }
     fn assumptions(&self) -> Vec<String> {
         vec![
-            "bit flips inside the content byte of the TSRequest version INTEGER, BER re-encodings, an extra trailing field, other version numbers and extra high-order zero bytes are 'don't care': the proof value is unchanged".into(),
+            "bit flips inside the content byte of the TSRequest version INTEGER, an extra trailing field (valid DER), other version numbers and extra high-order zero bytes are 'don't care': the proof value is unchanged".into(),
             "client nonce and exported session key come from the real generator (not fixed): the oracle does not depend on their value".into(),
         ]
     }
